@@ -92,7 +92,7 @@ fn write_acquire_body(inside: bool) {
     let a = old.active.unwrap();
     let (lo, so) = lv(&ex, &l);
     kani::assume(region_token_waiter(&old) == inside);
-    let ret = crate::rt::scheduler::verif_kani::with_ctx(&mut ex, || l.post_acquire_write_lock());
+    let ret = crate::rt::scheduler::verif_kani::with_ctx(&mut ex, || l.try_acquire_write_lock(Location::disabled()));
     let new = set_view(&ex.threads);
     let (ln, sn) = lv(&ex, &l);
     oblige!("C07.rwlock.write_acquire.succeeds_iff_free", ret == (lo == LockView::Free));
@@ -102,9 +102,10 @@ fn write_acquire_body(inside: bool) {
     while i < N {
         let (o, n) = (old.th[i], new.th[i]);
         if !ret {
-            oblige!("C07.rwlock.write_acquire.failure_changes_no_thread", th_view_eq(&o, &n));
+            oblige!("C07.rwlock.write_acquire.failure_changes_no_thread", if i == a { n.op == Some((0, WRITE)) && n.st == o.st && vv_eq(&n.causality, &o.causality) } else { th_view_eq(&o, &n) });
         } else if i == a {
-            oblige!("C07.rwlock.write_acquire.acquires_exactly_the_release_view", is_join(&n.causality, &o.causality, &so) && th_view_eq_except_causality(&o, &n));
+            oblige!("C07.rwlock.write_acquire.acquires_exactly_the_release_view", is_join(&n.causality, &o.causality, &so) && n.st == o.st && n.op == Some((0, WRITE))
+                && vv_eq(&n.released, &o.released) && vv_eq(&n.dpor_vv, &o.dpor_vv));
         } else if o.op.map(|x| x.0) == Some(0) {
             oblige!("C07.rwlock.write_acquire.blocks_every_other_contender", n.st == StView::Blocked && th_view_eq_except_state(&o, &n));
             oblige!("C08.token_kept.rwlock_write_acquire", !has_token(&o));
@@ -117,18 +118,22 @@ fn write_acquire_body(inside: bool) {
 }
 
 crate::with_fire_forbidden! {
-//@ props=C07,C05,C08 tier=quick fns=src/rt/rwlock.rs::RwLock::post_acquire_write_lock bounded=threads:N=3 models=VersionVec::join=s_vv_models_agree
+//@ props=C07,C05,C08 tier=quick fns=src/rt/rwlock.rs::RwLock::try_acquire_write_lock,src/rt/rwlock.rs::RwLock::post_acquire_write_lock bounded=threads:N=3 models=VersionVec::join=s_vv_models_agree,Execution::schedule=probe,Scheduler::switch=counting
 #[kani::proof]
 #[kani::unwind(7)]
+#[kani::stub(crate::rt::execution::Execution::schedule, crate::rt::execution::Execution::schedule_probe_model)]
+#[kani::stub(crate::rt::scheduler::Scheduler::switch, crate::rt::scheduler::verif_kani::switch_counting_model)]
 fn c07_rwlock_write_acquire__outside() {
     write_acquire_body(false);
 }
 }
 
 crate::with_fire_forbidden! {
-//@ props=C08 tier=quick fns=src/rt/rwlock.rs::RwLock::post_acquire_write_lock bounded=threads:N=3 finding=F1e expect=C08.token_kept.rwlock_write_acquire
+//@ props=C08 tier=quick fns=src/rt/rwlock.rs::RwLock::try_acquire_write_lock,src/rt/rwlock.rs::RwLock::post_acquire_write_lock bounded=threads:N=3 finding=F1e expect=C08.token_kept.rwlock_write_acquire
 #[kani::proof]
 #[kani::unwind(7)]
+#[kani::stub(crate::rt::execution::Execution::schedule, crate::rt::execution::Execution::schedule_probe_model)]
+#[kani::stub(crate::rt::scheduler::Scheduler::switch, crate::rt::scheduler::verif_kani::switch_counting_model)]
 fn c07_rwlock_write_acquire__inside() {
     write_acquire_body(true);
 }
